@@ -1,5 +1,5 @@
 #!/usr/bin/env python3
-"""mutate.py <file-in-repo> <check-id>[,<check-id>...] [-n N] [-seed S] [-jobs J]
+"""mutate.py <file-in-repo> <check-id>[,<check-id>...] [-n N] [-seed S] [-jobs J] [-only k,k,...]
 
 Single-token mutants of one source file of /repo, each in a scratch worktree (never in /repo itself):
 a mutant that still builds and still passes the repository's own tests is handed to the given checks
@@ -104,7 +104,7 @@ def one(args):
 def main():
     a = sys.argv[1:]
     rel, checks = a[0], a[1].split(",")
-    n, seed, jobs = 20, 1, 3
+    n, seed, jobs, only = 20, 1, 3, None
     for i, x in enumerate(a):
         if x == "-n":
             n = int(a[i + 1])
@@ -112,13 +112,15 @@ def main():
             seed = int(a[i + 1])
         if x == "-jobs":
             jobs = int(a[i + 1])
+        if x == "-only":  # re-run these mutant numbers (of the same -n and -seed) only
+            only = set(int(k) for k in a[i + 1].split(","))
     lines, cands = candidates(os.path.join(REPO, rel))
     random.Random(seed).shuffle(cands)
     cands = cands[:n]
     print("%s: %d mutants" % (rel, len(cands)), flush=True)
     tally = {}
     with ThreadPoolExecutor(max_workers=jobs) as ex:
-        for r in ex.map(one, [(rel, checks, lines, c, k) for k, c in enumerate(cands)]):
+        for r in ex.map(one, [(rel, checks, lines, c, k) for k, c in enumerate(cands) if only is None or k in only]):
             tally[r["outcome"].split(":")[0]] = tally.get(r["outcome"].split(":")[0], 0) + 1
             print(json.dumps(r), flush=True)
     print("TALLY", rel, json.dumps(tally), flush=True)
